@@ -64,6 +64,16 @@ CLAIMS = {
    note="Trusted: simulator primitives and virtual time (1 s wait expires only at quiescence); KeyboardInterrupt outcome not driven in the simulator. Histories bounded in length.",
    technique="TLA+ model of main_thread_only scheduling model-checked with TLC over all bounded histories (incl. 2 mutants); real worker+initiator under deterministic schedule exploration and real popen workers; traces validated by TLC against the TLA+ property automaton",
    ref="5/C14"),
+ "C19": dict(
+   text="spec/ChanFile.tla states the reference (a position in the concatenation of the items) next to the buffer algorithm of ChannelFileRead.read/readline; TLC checks algorithm = reference for every split of every string over {a, b, newline} (<= 3/4 chars, <= 3 items incl. empty) and every call sequence. The same scenario space (text and bytes), generated long unicode/binary inputs and real popen channels (makefile('r') and makefile('w'): one item per write, flush, write after close, proxyclose) are run on the real code; TLC judges every recorded result against the reference (spec/ChanFileCases.tla).",
+   note="Trusted: stub channel for the exhaustive part; code points / bytes projection. An ended channel without any item yields '' also for byte streams (accepted as empty).",
+   technique="TLA+ reference file semantics + transliterated buffer algorithm model-checked with TLC; model's scenario space replayed on the real ChannelFile classes; results validated by TLC",
+   ref="5/C19"),
+ "C20": dict(
+   text='spec/XSpec.tla defines Split/Parse and, independently, Expected(kvs) for key/value lists; TLC checks Parse(Join(kvs)) = Expected(kvs) for all lists of <= 2 (3) pairs over an alphabet with every structural character and determines the unambiguous domain. The real XSpec is run on enumerated and generated lists and judged by TLC (attributes, env, str/eq/hash, absent names, ValueError on any repeated key). Group id allocation/registration and the container protocol run as the real code under the baton scheduler with line-level preemption (preemption-bounded systematic + random schedules) and on a real Group with real popen gateways; TLC checks no two live gateways share an id, auto ids unique, lookups agree with iteration, failed makegateway leaves no process.',
+   note="Trusted: process creation replaced by recording fakes in the simulated Group runs; ambiguous joins are outside the domain. Known findings: key named 'env', concurrent id collision leaves a process.",
+   technique="TLA+ parser spec model-checked with TLC over bounded key/value lists; recorded XSpec results and Group event traces (deterministic simulator with line-level preemption + real gateways) validated by TLC",
+   ref="5/C20"),
 }
 
 NOT_YET = {}
